@@ -68,3 +68,10 @@ func init() {
 		}
 	})
 }
+
+func init() {
+	extend("C19", func(r *Run) {
+		r.Rule("C19.key-codec", "the persisted wallet public key is encoded and decoded by mutually inverse, fixed-width codecs", 2)
+		keyCodecRule(r, "C19.key-codec")
+	})
+}
